@@ -177,7 +177,59 @@ fn read_rows(h: &mut Harness) -> Result<Vec<Vec<Val>>, String> {
     }
 }
 
+/// A table whose name, followed by a period, begins one of its own column
+/// names: `Item(Id, Size, "Item.Size")`.  A name always means the column that
+/// carries exactly that name.
+fn dotted_own_name_group(rep: &mut Report) -> u64 {
+    let mk = || -> Harness {
+        let mut h = Harness::create(0).expect("create");
+        let ops = [
+            Op::CreateTable { name: "Item".into(), cols: vec![ColSpec::new("Id", Ty::I16).key(), ColSpec::new("Size", Ty::I16).nullable(), ColSpec::new("Item.Size", Ty::I16).nullable()] },
+            Op::Insert { table: "Item".into(), rows: vec![vec![Val::Int(1), Val::Int(10), Val::Int(20)], vec![Val::Int(2), Val::Int(30), Val::Int(40)]] },
+            Op::CreateTable { name: "Other".into(), cols: vec![ColSpec::new("Id", Ty::I16).key()] },
+            Op::Insert { table: "Other".into(), rows: vec![vec![Val::Int(1)]] },
+        ];
+        for op in &ops {
+            assert!(h.apply(op).is_ok(), "{}", op.show());
+        }
+        h
+    };
+    let sel = |h: &mut Harness, q: msi::Select| -> Result<Vec<Vec<Val>>, String> {
+        match catch(|| h.p().select_rows(q).map(|r| r.map(|row| (0..row.len()).map(|i| Val::from_msi(&row[i])).collect::<Vec<Val>>()).collect::<Vec<_>>()).map_err(|e| e.to_string())) {
+            Ok(r) => r,
+            Err(p) => Err(format!("PANIC {}", p)),
+        }
+    };
+    let i = |n: i32| Val::Int(n);
+    let mut n = 0u64;
+    let mut check = |rep: &mut Report, what: &str, got: Result<Vec<Vec<Val>>, String>, want: Vec<Vec<Val>>| {
+        n += 1;
+        if got.as_ref().ok() != Some(&want) {
+            rep.violation(format!("conditions:dotted-own-name:{}", what.split(' ').next().unwrap_or("")), format!("table Item(Id, Size, \"Item.Size\") with rows (1,10,20), (2,30,40): {} gives {:?}, expected {}", what, got.map(|r| crate::snapshot::show_rows(&Ok(r))), crate::snapshot::show_rows(&Ok(want))), json!({"kind":"c03-dotted","what":what}));
+        }
+    };
+    let mut h = mk();
+    check(rep, "select-columns [Item.Size]", sel(&mut h, msi::Select::table("Item").columns(&["Item.Size"])), vec![vec![i(20)], vec![i(40)]]);
+    check(rep, "select-columns [Size, Item.Size, Id]", sel(&mut h, msi::Select::table("Item").columns(&["Size", "Item.Size", "Id"])), vec![vec![i(10), i(20), i(1)], vec![i(30), i(40), i(2)]]);
+    check(rep, "select-where Item.Size = 20", sel(&mut h, msi::Select::table("Item").with(msi::Expr::col("Item.Size").eq(msi::Expr::integer(20)))), vec![vec![i(1), i(10), i(20)]]);
+    check(rep, "select-where Size = 20", sel(&mut h, msi::Select::table("Item").with(msi::Expr::col("Size").eq(msi::Expr::integer(20)))), vec![]);
+    check(rep, "select-where Item.Size > Size", sel(&mut h, msi::Select::table("Item").with(msi::Expr::col("Item.Size").gt(msi::Expr::col("Size")))), vec![vec![i(1), i(10), i(20)], vec![i(2), i(30), i(40)]]);
+    // in a join the columns are prefixed: Item.Size is the plain Size, Item.Item.Size the dotted one
+    let join = msi::Select::table("Item").inner_join(msi::Select::table("Other"), msi::Expr::col("Item.Id").eq(msi::Expr::col("Other.Id")));
+    check(rep, "join-columns [Item.Size, Item.Item.Size]", sel(&mut h, join.columns(&["Item.Size", "Item.Item.Size"])), vec![vec![i(10), i(20)]]);
+    // update and delete through the dotted name
+    let _ = h.apply(&Op::Update { table: "Item".into(), sets: vec![("Item.Size".into(), i(99))], cond: Some(E::bin(Bin::Eq, E::col("Item.Size"), E::int(20))) });
+    check(rep, "update-set Item.Size = 99 where Item.Size = 20", sel(&mut h, msi::Select::table("Item")), vec![vec![i(1), i(10), i(99)], vec![i(2), i(30), i(40)]]);
+    let _ = h.apply(&Op::Delete { table: "Item".into(), cond: Some(E::bin(Bin::Eq, E::col("Item.Size"), E::int(40))) });
+    check(rep, "delete-where Item.Size = 40", sel(&mut h, msi::Select::table("Item")), vec![vec![i(1), i(10), i(99)]]);
+    let _ = h.apply(&Op::Reopen);
+    check(rep, "after-reopen select-columns [Item.Size]", sel(&mut h, msi::Select::table("Item").columns(&["Item.Size"])), vec![vec![i(99)]]);
+    n
+}
+
 pub fn run(tier: Tier, rep: &mut Report) -> (u64, u64) {
+    let dotted = dotted_own_name_group(rep);
+    rep.set("dotted_own_name_queries", dotted);
     let conds = conditions();
     let n_plain = conds.len();
     let conds: Vec<E> = conds.into_iter().chain(nested_logic_conditions()).collect();
